@@ -25,25 +25,13 @@ def exactsum(l,s,i=0,r=None):
 # to find a minimal-length list of couples from l
 # with sum of weights equal to s.
 def dynprog(l,s):
-    n = len(l)
-    p = {}
-    p[0] = [0]
-    for x in range(1,s+1):
-        m = None
-        for i in range(n):
-            u = x-l[i][1]
-            if (u>=0 and (u in p) and ((m is None) or p[u][0]<m)):
-                    m = p[u][0]
-                    im = i
-        if m!=None:
-            p[x] = [m+1]
-            src  = p[x-l[im][1]]
-            for j in range(1,m+1): p[x].append(src[j])
-            p[x].append(l[im])
-        else:
-            if x in p:
-                del p[x]
-    try:
-        return p[s][1:]
-    except KeyError:
-        return None
+    # p[x]: a minimal-length list of couples, each taken at most once, with weights summing to x
+    p = {0: []}
+    for c in l:
+        w = c[1]
+        # descending targets: couple c is not reused within the same pass
+        for x in range(s,w-1,-1):
+            u = x-w
+            if (u in p) and ((x not in p) or len(p[u])+1<len(p[x])):
+                p[x] = p[u]+[c]
+    return p.get(s,None)
